@@ -473,7 +473,17 @@ class Interp:
         return tuple(self.ev(e) for e in node.elts)
 
     def ev_List(self, node):
-        return [self.ev(e) for e in node.elts]
+        out = []
+        for e in node.elts:
+            if isinstance(e, ast.Starred):
+                v = self.ev(e.value)
+                if isinstance(v, (list, tuple)) and not (len(v) >= 1 and isinstance(v[0], str) and v[0] == 'opaque'):
+                    out.extend(v)
+                else:
+                    out.append(('star', v))          # [a, *xs] with a symbolic xs: the family's hook decides what it means
+            else:
+                out.append(self.ev(e))
+        return out
 
     def ev_UnaryOp(self, node):
         v = self.ev(node.operand)
@@ -1702,6 +1712,8 @@ class Interp:
             if n not in decl:
                 raise OutsideSubset('global %s is not declared in the contract' % n)
         # declared globals live in the environment from the entry on: nothing to do
+
+    st_Nonlocal = st_Global          # a closure variable the nested unit rebinds: declared like a global of the unit
 
     def st_FunctionDef(self, s):
         self.env[s.name] = Closure(s, self.env)
